@@ -139,9 +139,19 @@ def _flavour_case(case):
     n = 0
     T = Particle.Type
     shared = {}
-    for ratio, source, reuse in itertools.product(((1, 1, 1), (1, 0, 0), (0, 1, 2), (2, 1, 1)), ("cosmogenic", "astrophysical"), (False, True)):
+    for ratio, source, reuse in itertools.product(((1, 1, 1), (1, 0, 0), (0, 1, 2), (2, 1, 1)), ("cosmogenic", "astrophysical"),
+                                                  (False, True, "array")):
         if not reuse:
             g, _ = _gen("cyl", energy=1e9, flavor_ratio=ratio, source=source)
+        elif reuse == "array":
+            # the ratio handed over as the caller's float array, which the caller goes on to use for something else
+            arr = np.array(ratio, dtype=np.float64)
+            g, _ = _gen("cyl", energy=1e9, flavor_ratio=arr, source=source)
+            n += 1
+            if not np.array_equal(arr, np.array(ratio, dtype=np.float64)):
+                fails.append({"check": "flavour-argument", "what": "constructing a generator changed the flavor_ratio array it was given: %s -> %s"
+                                                                   % (list(ratio), arr.tolist()), "tags": {"group": "flavour-argument"}})
+            arr[:] = (0.0, 0.0, 5.0)
         else:
             # ONE generator per source that has already thrown with another ratio and is given the new one through its
             # documented `ratio` attribute
@@ -167,8 +177,9 @@ def _flavour_case(case):
                 nontriv.add("fl|%s|%s|%s" % (ratio, source, t.name))
                 if t != want:
                     fails.append({"check": "flavour", "what": "ratio %s%s source %s draws (%r,%r): %s, configured thresholds give %s"
-                                                              % (ratio, " (assigned to a generator that had thrown before)" if reuse else "",
-                                                                 source, u1, u2, t.name, want.name), "tags": {"group": "flavour", "reuse": reuse}})
+                                                              % (ratio, " (assigned to a generator that had thrown before)" if reuse is True else
+                                                                 (" (given as an array the caller re-used afterwards)" if reuse else ""),
+                                                                 source, u1, u2, t.name, want.name), "tags": {"group": "flavour", "reuse": str(reuse)}})
     return {"n": n, "nontrivial": sorted(nontriv), "fails": fails, "sample": {"K": K}}
 
 
